@@ -23,7 +23,6 @@ RULE = ("one execution = one stack, one ordered pair of operations (victim op pa
         "distinct & non-trivial = (stack, op pair, placement site) where the second op actually ran while the first was "
         "inside the library, or (stack, nesting site) where the nested submit was reached")
 REQUIRED = ["line_events", "lock_acquisitions", "vevent_waits"]
-WATCHDOG = {"quick": 240, "thorough": 900}
 
 SINGLE = ["map", "flat_map", "retry", "poll", "throttle", "timeout", "cos"]
 OPS = ["submit", "cancel", "add_cb", "result", "complete", "shutdown", "cancel_inner", "timer"]
